@@ -18,6 +18,35 @@ class PFalsy(PUser):
         return iter(())
 
 
+class PSlotExtra(NodeMixin):
+    """A NodeMixin class whose state is not entirely in __dict__: one extra slot."""
+
+    __slots__ = ("extra",)
+
+    def __init__(self, name, data=None):
+        self.name = name
+        self.data = data
+        self.extra = ("slot", name)
+
+
+class PDictNode(NodeMixin, dict):
+    """A node that is also a mapping: its items are state outside __dict__."""
+
+    def __init__(self, name, data=None):
+        dict.__init__(self, key=name, payload=data)
+        self.name = name
+        self.data = data
+
+    # a mapping node is still compared by identity here
+    __hash__ = object.__hash__
+
+    def __eq__(self, other):
+        return self is other
+
+    def __ne__(self, other):
+        return self is not other
+
+
 class PLight(LightNodeMixin):
     __slots__ = ("name", "data")
 
